@@ -1,14 +1,140 @@
-"""C02 - see core_mod.SPEC['C02'] (generators, projections) and core_props.oracle_c02 (spec on the implementation)."""
+"""C02 - see core_mod.SPEC['C02'] (generators, projections) and core_props.oracle_c02 (spec on the implementation).
+
+Plus a directed, implementation-only case list `refire_cases` (both tiers): handlers that call `event.stop()` and, in
+the same invocation, fire an event again - the very event object they are handling (a retry / forward idiom), another
+event object of the same name, or nothing.  The `fire()` must not change what the current dispatch does: after `stop()` no
+handler of lower priority runs for this dispatch; the handlers that run are in descending priority; the re-fired
+object is dispatched again in a later pass, from the top.  (The Act language of the core model creates a fresh event
+object for every `fire`; only Timers re-fire an object there, so these programs are evaluated on the implementation alone.)
+"""
 import core_mod
+import framework
 
 
 def run(ctx):
     core_mod.run(ctx, 'C02')
+    refire_cases(ctx)
 
 
 def search(ctx):
     core_mod.run(ctx, 'C02')
+    refire_cases(ctx)
 
 
 def replay(ctx, case):
-    core_mod.replay(ctx, 'C02', case)
+    if case.get('kind') == 'refire':
+        check_refire(ctx, case)
+    else:
+        core_mod.replay(ctx, 'C02', case)
+
+
+PRIOS = [2.5, 1, 0, -0.5, -3]
+
+
+def refire_cases(ctx):
+    """stopper = index (in descending priority order) of the handler that stops; what = what it fires after (or before)
+    the stop; order = fire-then-stop or stop-then-fire; fire_prio = priority of that fire; times = how often the handler
+    does it (the re-fired object comes round again); flushes from inside / outside"""
+    for stopper in (0, 1, 2, 3):
+        for what in ('same', 'new', 'none'):
+            for order in ('stop-fire', 'fire-stop'):
+                for fire_prio in (0, 2, -1):
+                    for times in (1, 2):
+                        if what == 'none' and (order != 'stop-fire' or fire_prio != 0 or times != 1):
+                            continue
+                        check_refire(ctx, {'kind': 'refire', 'stopper': stopper, 'what': what, 'order': order,
+                                           'fire_prio': fire_prio, 'times': times})
+
+
+def run_refire(case):
+    """returns (passes, stops, fires): a pass = list of (event tag, handler priority) in invocation order;
+    stops = {tag: priority of the first handler that stopped it}; fires = {tag: how often it was fired}"""
+    framework.setup_import_path()
+    from circuits import Component, Event, handler
+
+    class ping(Event):
+        pass
+
+    passes = [[]]
+    state = {'n': 0, 'tags': {}, 'keep': []}
+    stops, fires = {}, {}
+
+    def tag(ev):
+        if id(ev) not in state['tags']:
+            state['tags'][id(ev)] = len(state['tags'])
+            state['keep'].append(ev)
+        return state['tags'][id(ev)]
+
+    def make(prio, idx):
+        @handler('ping', priority=prio)
+        def h(self, event, *args):
+            passes[-1].append((tag(event), prio))
+            if idx == case['stopper'] and state['n'] < case['times']:
+                state['n'] += 1
+
+                def again():
+                    if case['what'] == 'same':
+                        fires[tag(event)] = fires.get(tag(event), 0) + 1
+                        self.fire(event, priority=case['fire_prio'])
+                    elif case['what'] == 'new':
+                        e2 = ping()
+                        fires[tag(e2)] = 1
+                        self.fire(e2, priority=case['fire_prio'])
+
+                def stop():
+                    stops.setdefault(tag(event), prio)
+                    event.stop()
+                if case['order'] == 'fire-stop':
+                    again()
+                    stop()
+                else:
+                    stop()
+                    again()
+        return h
+
+    App = type('App', (Component,), {f'h{i}': make(p, i) for i, p in enumerate(PRIOS)})
+    app = App()
+    first = ping()
+    fires[tag(first)] = 1
+    app.fire(first)
+    for _ in range(8):
+        if not len(app._queue):
+            break
+        app.flush()
+        passes.append([])
+    return [p for p in passes if p], stops, fires
+
+
+def check_refire(ctx, case):
+    passes, stops, fires = run_refire(case)
+    ctx.case(case, nontrivial=True, validated=True)
+    ctx.count('refire', f"{case['what']}:{case['order']}")
+    stopped = {}            # tag -> priority of the stopping handler, from the moment it stopped
+    ndisp = {}
+    for p in passes:
+        i = 0
+        while i < len(p):                       # one dispatch = a maximal run of invocations for one event object
+            j = i
+            while j < len(p) and p[j][0] == p[i][0]:
+                j += 1
+            t = p[i][0]
+            prios = [x[1] for x in p[i:j]]
+            ndisp[t] = ndisp.get(t, 0) + 1
+            if prios != sorted(prios, reverse=True):
+                ctx.violate(case, 'handler-order(refire)', f'handler priorities in invocation order {prios} are not descending')
+                return
+            for q in prios:
+                if t in stopped and q < stopped[t]:
+                    ctx.violate(case, 'ran-after-stop(refire)',
+                                f'the handler of priority {stopped[t]} called stop() on the event (and fired: {case["what"]}, '
+                                f'{case["order"]}, priority {case["fire_prio"]}), yet a handler of priority {q} ran for it '
+                                f'afterwards: passes {passes}')
+                    return
+                if t in stops and q == stops[t]:
+                    stopped[t] = q
+            if t not in stops and prios != PRIOS:
+                ctx.violate(case, 'handlers-skipped(refire)', f'an event nobody stopped was handled by {prios} only: passes {passes}')
+                return
+            i = j
+    if ndisp != fires:
+        ctx.violate(case, 'dispatch-count(refire)', f'fired {fires} times, dispatched {ndisp} times (by event object): passes {passes}')
